@@ -175,20 +175,47 @@ def whole_match_is_group1(pattern, flags=0):
     return len(items) == 1 and items[0][0] == sc.SUBPATTERN and items[0][1][0] == 1
 
 
+class _SubMatch:
+    """match object handed to a replacement function / template: group 0 = group 1 = text[s:e]."""
+
+    def __init__(self, s, e, n):
+        self.s, self.e, self.n = s, e, n
+
+    def group(self, k=0):
+        if k in (0, 1):
+            return TStr.sub(self.s, self.e, self.n)
+        raise IndexError("no such group")
+
+    def start(self, k=0):
+        return SInt(self.s)
+
+    def end(self, k=0):
+        return SInt(self.e)
+
+
 def sym_sub_wrap(eng, pattern, repl, text, n, max_matches=2, tag="s"):
     """re.sub(pattern, repl, text) for a pattern that is exactly one capture group and a template
     of the form  X \\1 Y : every character of `text` is kept, X/Y are inserted around up to
     `max_matches` non-overlapping matches (more matches: BoundExceeded)."""
     if not whole_match_is_group1(pattern):
         raise NotEncodable("re.sub stub needs a pattern that is one capture group")
-    tpl = sp.parse_template(repl, re.compile(pattern))
-    # python 3.12: parse_template returns a list: literals and group indexes
-    lits = tpl if isinstance(tpl, list) else None
-    if lits is None or [x for x in lits if isinstance(x, int)] != [1]:
-        raise NotEncodable(f"re.sub template {repl!r}")
-    i1 = lits.index(1)
-    X = "".join(x for x in lits[:i1] if isinstance(x, str))
-    Y = "".join(x for x in lits[i1 + 1 :] if isinstance(x, str))
+    fn = None
+    if callable(repl):
+        # replacement function (interpreted): called once per match with a match object
+        fn = repl
+    else:
+        tpl = sp.parse_template(repl, re.compile(pattern))  # raises re.error exactly when re.sub would
+        # python 3.12: parse_template returns a list: literals and group indexes
+        lits = tpl if isinstance(tpl, list) else None
+        if lits is None:
+            raise NotEncodable(f"re.sub template {repl!r}")
+
+        def fn(m, lits=lits):
+            out = TStr([], m.n)
+            for x in lits:
+                out = out + (x if isinstance(x, str) else m.group(x))
+            return out
+
     subj = _subject(text, n)
     if not subj.atoms:
         return subj
@@ -204,7 +231,12 @@ def sym_sub_wrap(eng, pattern, repl, text, n, max_matches=2, tag="s"):
     for j in range(k):
         s, e = eng.fresh_int(f"ss_{tag}{j}"), eng.fresh_int(f"se_{tag}{j}")
         eng.add(cur <= s, s + minw <= e, e <= hi)
-        out = out + TStr.sub(cur, s, subj.n) + X + TStr.sub(s, e, subj.n) + Y
+        piece = fn(_SubMatch(s, e, subj.n))
+        if isinstance(piece, str):
+            piece = TStr([("lit", piece)] if piece else [], subj.n)
+        if not isinstance(piece, TStr):
+            raise NotEncodable(f"re.sub replacement returned {type(piece).__name__}")
+        out = out + TStr.sub(cur, s, subj.n) + piece
         cur = e
     out = out + TStr.sub(cur, hi, subj.n)
     return out
